@@ -11,6 +11,7 @@ from typing import Dict, List, Optional
 from ..effects import PERSISTED, Classifier, render
 from ..engine import Analysis, describe_path
 from ..values import BoundV, Const, EnumMemV, ExtV, FuncV, Obj, Sym, TupleV, Unknown, V
+from . import common
 from .c01 import MODULAR, SEND_QUALS
 
 
@@ -69,17 +70,13 @@ def logic_records(analysis: Analysis, spec) -> List[dict]:
     st, gw = analysis.gateway_state(it)
     line = Sym(("root", "line"), "str")
     outs = analysis.run_root(it, "__init__:Gateway.logic", [line], gw, st)
-    cl = Classifier(analysis.p)
+    cl = Classifier(analysis.p, analysis)
     return [record(analysis, it, cl, out, ctx.name) for out in outs]
 
 
 def record(analysis, it, cl: Classifier, out, ctxname: str, root="__init__:Gateway.logic") -> dict:
     kind, st, v = out
-    msgkey = None
-    for e in st.events:
-        if e.kind == "new" and e.name == "message:Message" and e.func == root:
-            msgkey = e.recv.key()
-            break
+    msgkey = common.inbound_message_key(st.events, root)
     _INBOUND.clear()
     if msgkey is not None:
         _INBOUND[msgkey] = "inbound"
